@@ -25,7 +25,8 @@ EXPLANATION = (
     "Tier S: a memo inside the resolver singletons must be keyed by every parameter its value is computed from."
 )
 RULE = "one evaluation = one parametrisation (all its fields, loader and dumper)"
-ASSUMPTIONS = ["dataclass hierarchies and two TypedDict hierarchies (the resolver is shared by all kinds; per-kind introspection is C17)",
+ASSUMPTIONS = ["dataclass hierarchies plus two TypedDict, two attrs, one NamedTuple and one pydantic hierarchy (the resolver is shared "
+               "by all kinds; per-kind introspection is C17); class-init models, InitVar, **kwargs: T are not enumerated",
                "type pool {int, str, bool, float, Decimal, bytes, Any, Book}: distinct types have distinct loader functions",
                "TypeVarTuple / Unpack are not enumerated"]
 
